@@ -32,6 +32,24 @@ STRENGTHENED = {
     "C19-m4": "missed at first; the workload now makes the token account of the all-zero wallet exist and names it for accounts without a destination",
     "C20-m3": "missed at first in most runs; the stale-venue probes now also run with a price account older than the venue's last refresh",
     "C20-m4": "missed at first; cached venue price is compared with oracle price x exact rate, and venue worlds now contain reserves below rate 1",
+    "revert-F12": "missed at seed 1 before the whale scenario (one forced withdrawal just above 2^32 dollars) was added",
+    "C01-m6": "missed at first; the C01 / C03 storms now run forced deleverage with whole-debt repayments by the risk admin on banks not flagged for token-less repayment",
+    "C02-m6": "missed at first; the wipe-out scenario now seizes the worthless collateral completely and lets the debtor try to close its account",
+    "C03-m6": "missed at first (the monitor's token-less exemption did not ask who signed); the exemption now requires the risk admin and a whole-debt repayment, and the account owner's repay-all on a flagged bank is simulated",
+    "C06-m6": "missed at first; a seventh of the storm's banks start at a base rate of exactly zero",
+    "C08-m5": "missed at first; committed empty bracket followed by a stranger's withdraw",
+    "C08-m6": "missed at first; `edit_staked_settings` is a matrix case, and every case with an object of this group is retried with the foreign group and each of its role holders",
+    "C10-m6": "missed at first; a third of the receivership scenarios run over reduce-only collateral",
+    "C11-m5": "missed at first; directed shapes migrate the account inside the bracket",
+    "C11-m6": "missed at first; directed shapes end on a sibling account of the same authority",
+    "C12-m5": "missed at first; two deleverage starts with one end in one transaction",
+    "C12-m6": "missed at first; completion flag accepted only on banks the admin opted in",
+    "C13-m5": "missed at first; health-pulse monitor (the program's own maintenance health against the reference) and e-mode entries below the collateral's own weights",
+    "C13-m6": "missed at first; health-pulse monitor and the e-mode scenario whose listing request repeats a tag",
+    "C14-m6": "missed at first; health-pulse monitor (equity level for accounts holding reduce-only deposits), pulsed inside the reduce-only cell",
+    "C17-m5": "missed at first; C17 got a venue engine and judges pass-through deposits against the cap",
+    "C19-m5": "missed at first (the workload named a wallet where the instruction wants a token account, so no destination was ever set); workload and monitor corrected, a foreign group's admin tries to re-point the destination",
+    "C20-m6": "missed at first; acceptances explainable only by pass-through collateral above the conservative adjusted price are attributed to C20",
     "V4-m2": "caught once every gated instruction (not only deposit) is probed right after the pause expiry",
 }
 def title(d):
@@ -60,7 +78,7 @@ def row(d):
     c = m.get("confirmed")
     conf = "yes" if c and c.get("demo_passes_on_unchanged_tree") and c.get("demo_fails_with_change") and c["suite_with_change"]["marginfi_lib_164_pass"] else ("n/a" if not c else "NO")
     return sid, title(d), conf, out, note
-print("### 13.1 Changes written by independent sub-agents (confirmed = demo passes on the unchanged tree, fails with the change, suite unchanged)\n")
+print("### 13.1 Changes written by independent sub-agents, four rounds: -m1/-m2 first, -m3/-m4 third, -m5/-m6 fourth (confirmed = demo passes on the unchanged tree, fails with the change, suite unchanged)\n")
 print("| id | change | confirmed | caught by (first signature) | note |\n|---|---|---|---|---|")
 for d in sorted(glob.glob(f"{R}/C??-m?")):
     print("| " + " | ".join(row(d)) + " |")
